@@ -98,6 +98,24 @@ def model (line : String) : String :=
             " ".intercalate ((rowPoints nx0 n step).map (fun nx => pointTokenQ v (k == "bil") w h nx ny D)) else "bad-op"
         | none => "bad-op"
     | _ => "bad-op"
+  | "bilc" :: vt :: F :: w :: h :: k :: v :: pts =>
+    match VT.parse vt, ints [w, h, v], pts.mapM String.toNat? with
+    | some t, some [w, h, v], some bs =>
+      let src : Int → Int → Int := fun x y => if k == "t" && (x + y) % 2 ≠ 0 then v - 1 else v
+      let one (bx byy : Nat) : String :=
+        if F == "f" then
+          match bilinearF32 w h src (Float32.ofBits bx.toUInt32) (Float32.ofBits byy.toUInt32) with
+          | some a => joinC ((chans t).map (fun _ => f2i32 a))
+          | none => "o"
+        else
+          match bilinearF w h src (Float.ofBits bx.toUInt64) (Float.ofBits byy.toUInt64) with
+          | some a => joinC ((chans t).map (fun _ => f2i a))
+          | none => "o"
+      let rec go : List Nat → List String
+        | a :: b :: r => one a b :: go r
+        | _ => []
+      " ".intercalate (go bs)
+    | _, _, _ => "bad-op"
   | "res" :: vt :: s :: rest =>
     match VT.parse vt, ints rest with
     | some v, some (w :: h :: dw :: dh :: m) => let d := resDump v (s == "b") w h dw dh m; d ++ " | " ++ d
@@ -226,6 +244,39 @@ def judge (op obs : String) : String :=
           | some e => fail e | none => "ok"
         | none => fail "bad-op"
     | _ => fail "bad-op"
+  | "bilc" :: vt :: F :: w :: h :: k :: v :: pts =>
+    match VT.parse vt, ints [w, h, v], pts.mapM String.toNat? with
+    | some t, some [w, h, v], some bs =>
+      let src : Int → Int → Int := fun x y => if k == "t" && (x + y) % 2 ≠ 0 then v - 1 else v
+      let toQ (b : Nat) : Option Rat :=
+        if F == "f" then ratOfFloat (Float32.ofBits b.toUInt32).toFloat else ratOfFloat (Float.ofBits b.toUInt64)
+      let rec pairsQ : List Nat → Option (List (Rat × Rat))
+        | a :: b :: r => match toQ a, toQ b, pairsQ r with
+          | some x, some y, some t => some ((x, y) :: t)
+          | _, _, _ => none
+        | [] => some []
+        | _ => none
+      match pairsQ bs with
+      | some ps =>
+        let toks := words obs
+        if toks.length ≠ ps.length then fail "shape" else
+        -- the exact rational value of the point: common denominator D, then the same Spec as on the grid
+        let tv : VT := { t with off := 0 }
+        match firstSome (ps.zip toks) (fun (p, tok) =>
+            let D : Int := (Nat.lcm p.1.den p.2.den : Nat)
+            let nx := p.1.num * (D / p.1.den); let ny := p.2.num * (D / p.2.den)
+            if tok == "X" then some "outside-but-result-modified"
+            else if tok == "o" then (if inDomain w h nx ny D then some "inside-reported-outside" else none)
+            else match parseC tok with
+              | none => some "not-a-value"
+              | some vs =>
+                if vs.length ≠ tv.nch then some "shape"
+                else if farOutside w h nx ny D then some "sampled-far-outside" else
+                let ss := (surrounding w h nx ny D).map (fun q => src q.1 q.2)
+                if vs.any (fun x => !(ss.any (· ≤ x) && ss.any (· ≥ x))) then some "convex" else none) with
+        | some e => fail e | none => "ok"
+      | none => fail "bad-op"
+    | _, _, _ => fail "bad-op"
   | "res" :: vt :: _ :: rest =>
     match VT.parse vt, ints rest with
     | some v, some [w, h, dw, dh, a, b, c, d, e, f] =>
